@@ -257,8 +257,15 @@ pub fn gen_string(rng: &mut Rng) -> String {
             if rng.chance(1, 4) {
                 s.push('\n');
             }
+            // mostly printable text and line feeds (the long-bracket form); sometimes other line
+            // breaks and white space (CR, CR LF, LF CR, TAB, FF), which must keep the string quoted
+            let other_breaks = rng.chance(1, 3);
             for _ in 0..n {
-                s.push(*rng.pick(b"abc xyz\n\n'\"-[=]") as char);
+                if other_breaks && rng.chance(1, 10) {
+                    s.push_str(*rng.pick(&["\r", "\r\n", "\n\r", "\r", "\t", "\u{c}", "\u{b}"]));
+                } else {
+                    s.push(*rng.pick(b"abc xyz\n\n'\"-[=]") as char);
+                }
             }
             s
         }
